@@ -457,6 +457,23 @@ func f32Patterns(g *Gen) uint32 {
 }
 
 func init() {
+	// combined streams for the quick tier (fewer worker start-ups): decode = atof + bad, encode = ftoa + itoa
+	registerGen("c19.dec", func(g *Gen) {
+		n := g.N
+		g.N = n * 3 / 4
+		gens["c19.atof"](g)
+		g.N = n / 4
+		gens["c19.bad"](g)
+		g.N = n
+	})
+	registerGen("c19.enc", func(g *Gen) {
+		n := g.N
+		g.N = n * 2 / 3
+		gens["c19.ftoa"](g)
+		g.N = n / 3
+		gens["c19.itoa"](g)
+		g.N = n
+	})
 	registerGen("c19.atof", func(g *Gen) {
 		for n := 0; n < g.N; {
 			lit, tag := hardLiteral(g)
